@@ -824,6 +824,25 @@ func (in *interp) execAssign(fr *frame, st state, x *ast.AssignStmt) []result {
 			return in.fail(st, msg, x.Pos())
 		}
 	}
+	// a, b := helper(c) with constant arguments: the helper is run (it chooses by the byte)
+	var tuple []val
+	if len(x.Rhs) == 1 && len(x.Lhs) > 1 {
+		if call, ok := ast.Unparen(x.Rhs[0]).(*ast.CallExpr); ok {
+			if f := in.callee(call); f != nil && in.decls[f] != nil && !in.isStep(f) {
+				args := make([]val, len(call.Args))
+				all := true
+				for k, a := range call.Args {
+					args[k] = in.evalExpr(fr, st, a)
+					if !args[k].known {
+						all = false
+					}
+				}
+				if all {
+					tuple = in.callPureTuple(f, args)
+				}
+			}
+		}
+	}
 	for i, l := range x.Lhs {
 		id := ast.Unparen(l).(*ast.Ident)
 		if id.Name == "_" {
@@ -836,10 +855,69 @@ func (in *interp) execAssign(fr *frame, st state, x *ast.AssignStmt) []result {
 		v := unknown
 		if len(x.Rhs) == len(x.Lhs) && x.Tok != token.ADD_ASSIGN && x.Tok != token.SUB_ASSIGN {
 			v = in.evalExpr(fr, st, x.Rhs[i])
+		} else if len(x.Rhs) == 1 && len(x.Lhs) > 1 && tuple != nil && i < len(tuple) {
+			v = tuple[i]
 		}
 		fr.env[obj] = v
 	}
 	return []result{{st: st}}
+}
+
+// callPureTuple evaluates an effect-free same-package function with several results on constant arguments: the
+// tuple of results when every path through it gives the same one (constants, function values, nil-ness).
+func (in *interp) callPureTuple(f *types.Func, args []val) []val {
+	d := in.decls[f]
+	if d == nil || d.Body == nil || d.Recv != nil || !in.isPure(f) {
+		return nil
+	}
+	fr := &frame{env: map[types.Object]val{}}
+	i := 0
+	for _, fl := range d.Type.Params.List {
+		for _, n := range fl.Names {
+			if i < len(args) {
+				fr.env[in.pkg.TypesInfo.Defs[n]] = args[i]
+			}
+			i++
+		}
+	}
+	save, saveDepth := in.unsup, in.maxDepth
+	in.unsup = map[string]bool{}
+	rs := in.execBlock(fr, []state{{}}, d.Body.List)
+	bad := len(in.unsup) > 0
+	in.unsup, in.maxDepth = save, saveDepth
+	if bad || len(rs) == 0 {
+		return nil
+	}
+	same := func(a, b val) bool {
+		switch {
+		case a.known != b.known || (a.fn == nil) != (b.fn == nil) || a.nilness != b.nilness:
+			return false
+		case a.known:
+			return constant.Compare(a.c, token.EQL, b.c)
+		case a.fn != nil:
+			return a.fn == b.fn
+		}
+		return a.nilness != 0 // both nil / both non-nil and nothing else known
+	}
+	var out []val
+	for _, r := range rs {
+		if !r.done || len(r.st.effs) != 0 || len(r.ret) == 0 {
+			return nil
+		}
+		if out == nil {
+			out = r.ret
+			continue
+		}
+		if len(out) != len(r.ret) {
+			return nil
+		}
+		for k := range out {
+			if !same(out[k], r.ret[k]) {
+				return nil
+			}
+		}
+	}
+	return out
 }
 
 // impureCallIn reports a call inside e (expression position) that may change scanner state.
